@@ -1,55 +1,8 @@
 /-
-  C03 — `InvB` (Model/C03_Inv.lean) is an inductive invariant of the abstract core: it holds initially and is
-  preserved by every handled event (`procEv`, layer not paused) and every completion (`procDone`), whatever the
-  auxiliary flow attributes are.
+  C03 — the invariant is preserved by every continuation (`resume`), whatever the auxiliary attributes are.
 -/
-import MitmVerif.Model.C03_Inv
+import MitmVerif.Lemmas.C03Base
 namespace MitmVerif.C03
-
-section simpset
-@[simp] theorem mk_c (c : Core) (o : List Out) : (mk c o).c = c := rfl
-@[simp] theorem mk_crashed (c : Core) (o : List Out) : (mk c o).crashed = false := rfl
-@[simp] theorem crash_c (c : Core) : (crash c).c = c := rfl
-@[simp] theorem crash_crashed (c : Core) : (crash c).crashed = true := rfl
-@[simp] theorem fire_c (c : Core) (h : Hook) (k : K) : (fire c h k).c = fireC c h k := rfl
-@[simp] theorem fire_crashed (c : Core) (h : Hook) (k : K) : (fire c h k).crashed = false := rfl
-@[simp] theorem pre_c (o : List Out) (w : W) : (W.pre o w).c = w.c := rfl
-@[simp] theorem pre_crashed (o : List Out) (w : W) : (W.pre o w).crashed = w.crashed := rfl
-theorem fin_mk (q : Bool) (c : Core) (o : List Out) : (W.fin q (mk c o)).c = c := by
-  cases c; simp [W.fin, mk]
-theorem fin_fire (q : Bool) (c : Core) (h : Hook) (k : K) : (W.fin q (fire c h k)).c = fireC c h k := fin_mk q _ _
-theorem fin_crash (q : Bool) (c : Core) : (W.fin q (crash c)).c = { c with stale := c.stale || q } := by
-  simp [W.fin, crash]
-theorem fin_pre (q : Bool) (o : List Out) (w : W) : (W.fin q (W.pre o w)).c = (W.fin q w).c := rfl
-theorem ite_c (b : Prop) [Decidable b] (x y : W) : (if b then x else y).c = if b then x.c else y.c := by split <;> rfl
-theorem ite_crashed (b : Prop) [Decidable b] (x y : W) : (if b then x else y).crashed = if b then x.crashed else y.crashed := by
-  split <;> rfl
-theorem fin_ite (q : Bool) (b : Prop) [Decidable b] (x y : W) : W.fin q (if b then x else y) = if b then W.fin q x else W.fin q y := by
-  split <;> rfl
-end simpset
-
-theorem inv_init : InvB {} = true := by decide
-
-theorem inv_bad : InvB badCore = true := by decide
-
-/-- close a leaf: unfold the invariant on both sides, then propositional reasoning; if that is not enough,
-    enumerate client_state × server_state first -/
-syntax "inv_close" ident : tactic
-macro_rules
-  | `(tactic| inv_close $d) => `(tactic|
-      ((try simp [InvB, imp, pausedOK, isErrHookK, isRespHookK, isRespSideK, killedNow, errPeek, is101, mon, fireC,
-          killFinishC, peRetC, applyAction, *] at *) <;>
-       (first | done | grind |
-         (cases hcs : Core.cs $d <;> cases hss : Core.ss $d <;> simp_all <;> grind))))
-
-/-- unfold one call into its decision tree, split it, close every leaf -/
-syntax "inv_tree" ident : tactic
-macro_rules
-  | `(tactic| inv_tree $d) => `(tactic|
-      (simp only [resume, handlePE, peAfter, killedFire, killedSilent, sendResponse, startRequestStream, cbsErrFire,
-        connectFinish, flowDone, onReqHeaders, clientEvent, serverEvent, fin_ite, ite_c, fin_pre, fin_mk, fin_fire,
-        fin_crash, mk_c, crash_c, fire_c, pre_c, ↓reduceIte, Bool.false_eq_true, reduceCtorEq] <;>
-       (repeat' split) <;> inv_close $d))
 
 set_option maxHeartbeats 8000000 in
 theorem inv_resume (d : Core) (k : K) (ok peek dr0 : Bool)
@@ -61,48 +14,5 @@ theorem inv_resume (d : Core) (k : K) (ok peek dr0 : Bool)
   case cbsHdr b => cases b <;> inv_tree d
   case cbsErr b => cases b <;> inv_tree d
   all_goals inv_tree d
-set_option maxHeartbeats 8000000 in
-theorem inv_reqErr (d : Core) (peek q x0 dr0 : Bool)
-    (h : InvB { d with procReqErr := x0, draining := dr0 } = true) (hp : d.paused = none) (hb : d.bad = false)
-    (hpt : d.pt = false) (hX : d.procReqErr = true) (hdr : d.draining = q) (hq : q = true → dr0 = true) :
-    InvB (W.fin q (handlePE d false .top peek)).c = true := by
-  inv_tree d
-
-set_option maxHeartbeats 8000000 in
-theorem inv_respErr (d : Core) (peek q dr0 : Bool)
-    (h : InvB { d with draining := dr0 } = true) (hp : d.paused = none) (hb : d.bad = false)
-    (hpt : d.pt = false) (hA : d.attached = true) (hdr : d.draining = q) (hq : q = true → dr0 = true) :
-    InvB (W.fin q (handlePE d true .top peek)).c = true := by
-  inv_tree d
-set_option maxHeartbeats 16000000 in
-theorem inv_reqHeaders (d : Core) (e : Bool) (kind : ReqKind) (ws : Bool) (v : Verdict) (q dr0 : Bool)
-    (h : InvB { d with seenReqHdr := false, draining := dr0 } = true) (hp : d.paused = none) (hb : d.bad = false)
-    (hpt : d.pt = false) (hS : d.seenReqHdr = true) (hG : d.stale = true ∨ d.procReqErr = false)
-    (hdr : d.draining = q) (hq : q = true → dr0 = true) :
-    InvB (W.fin q (clientEvent d (.reqHeaders e kind ws v))).c = true := by
-  cases hcs : d.cs <;> cases kind <;> cases v <;> cases e <;> simp only [clientEvent, hcs] <;> inv_tree d
-
-set_option maxHeartbeats 16000000 in
-theorem inv_reqBody (d : Core) (ev : AEv) (hev : (∃ v, ev = .reqData v) ∨ (∃ ne, ev = .reqEOM ne) ∨ ev = .reqTrailers) (q dr0 : Bool)
-    (h : InvB { d with draining := dr0 } = true) (hp : d.paused = none) (hb : d.bad = false)
-    (hpt : d.pt = false) (hG : d.stale = true ∨ d.procReqErr = false)
-    (hdr : d.draining = q) (hq : q = true → dr0 = true) :
-    InvB (W.fin q (clientEvent d ev)).c = true := by
-  rcases hev with ⟨v, rfl⟩ | ⟨ne, rfl⟩ | rfl
-  · cases hcs : d.cs <;> cases v <;> simp only [clientEvent, hcs] <;> inv_tree d
-  · cases hcs : d.cs <;> simp only [clientEvent, hcs] <;> inv_tree d
-  · cases hcs : d.cs <;> simp only [clientEvent, hcs] <;> inv_tree d
-set_option maxHeartbeats 16000000 in
-theorem inv_respEvent (d : Core) (ev : AEv)
-    (hev : (∃ e k v, ev = .respHeaders e k v) ∨ (∃ v, ev = .respData v) ∨ (∃ ne, ev = .respEOM ne) ∨ ev = .respTrailers) (q dr0 : Bool)
-    (h : InvB { d with draining := dr0 } = true) (hp : d.paused = none) (hb : d.bad = false)
-    (hpt : d.pt = false) (hA : d.attached = true)
-    (hdr : d.draining = q) (hq : q = true → dr0 = true) :
-    InvB (W.fin q (serverEvent d ev)).c = true := by
-  rcases hev with ⟨e, k, v, rfl⟩ | ⟨v, rfl⟩ | ⟨ne, rfl⟩ | rfl
-  · cases hss : d.ss <;> cases k <;> cases v <;> cases e <;> simp only [serverEvent, hss] <;> inv_tree d
-  · cases hss : d.ss <;> cases v <;> simp only [serverEvent, hss] <;> inv_tree d
-  · cases hss : d.ss <;> simp only [serverEvent, hss] <;> inv_tree d
-  · cases hss : d.ss <;> simp only [serverEvent, hss] <;> inv_tree d
 
 end MitmVerif.C03
